@@ -22,7 +22,7 @@ Definition outcome_code (o : outcome) : option N := match o with Clean => None |
 
 Definition c06_ok (c : c06case) : bool :=
   match c with
-  | UnaryConnect status enc j observed => opt_eqb N.eqb (connect_unary_validate status enc j) observed
+  | UnaryConnect status enc j observed => opt_eqb N.eqb (connect_unary_validate status enc (body_as_published status j)) observed
   | StreamConnectValidate status enc observed => opt_eqb N.eqb (connect_stream_validate status enc) observed
   | GrpcValidate status enc hs d observed => opt_eqb N.eqb (grpc_validate status enc hs d) observed
   | GrpcEnd web st d observed =>
